@@ -400,9 +400,24 @@ package originium
 //@ define lmOK(lm) = all(L, 0, len(lm.levels), listOK(lm.levels[L])) && forall(Int(L), Int(p), (0 <= L && L < len(lm.levels) && 0 <= p && p < ListLen[ref(lm.levels[L])]) ==> (tag(elAt(lm, L, p).Value) == tagof(tableHandle) && handleOK(L, thAt(lm, L, p))))
 //@ define matches(x, key) = uk(x.Key) == uk(key) && ts(x.Key) <= ts(key)
 //
+//@ ghost FtName Str
+//@ ghost FtDec T(table.Data)
 //@ func (*originium.levelManager).fetch -> r
 //@ props C10 C09
 //@ trusted reads a data block back from the table file: file system + s2 + block codec (C11 decides decode(encode(x)) = x); the ghost table model is what the file contains
+// body glue (checked on the body, thin): the file opened is the one named by (level, idx); the read
+// starts at the handle's offset and asks for exactly the handle's length; those bytes are what is
+// decoded, and the decoded block is what is returned.
+//@ body_ensures true
+//@ thin ^assert
+//@ before_call (*originium.levelManager).fileName#0: assert arg1 == level && arg2 == idx
+//@ after_call (*originium.levelManager).fileName#0: ghost FtName = result
+//@ before_call os.Open#0: assert arg0 == FtName
+//@ before_call (*os.File).Seek#0: assert arg0 == fd && arg2 == 0 && (0 <= handle.Offset && handle.Offset < 9223372036854775808 ==> arg1 == handle.Offset)
+//@ before_call (*os.File).Read#0: assert arg0 == fd && (0 <= handle.Length && handle.Length < 9223372036854775808 ==> len(arg1) == handle.Length) && arrid(arg1) == arrid(data) && offof(arg1) == 0
+//@ before_call (*table.Data).Decode#0: assert arg0 == &dataBlock && arrid(arg1) == arrid(data) && offof(arg1) == 0 && len(arg1) == len(data)
+//@ after_call (*table.Data).Decode#0: ghost FtDec = dataBlock
+//@ at_exit exit: assert r == FtDec
 //@ requires 0 <= TBlkOfOff[fid(level, idx)][handle.Offset] && TBlkOfOff[fid(level, idx)][handle.Offset] < TNBlk[fid(level, idx)]
 //@ assigns nothing
 //@ ensures arrid(r.Entries) >= old(alloc) && offof(r.Entries) == 0
@@ -909,12 +924,34 @@ package originium
 // block is at or below maxVersion, and maxVersion never falls below that value again (ghost TabFloor).
 //@ ghost BadFooter Bool
 //@ ghost TabFloor Int
+//@ ghost RcLevel Int
+//@ ghost RcIdx Int
+//@ ghost RcBf Int
 //@ func (*originium.levelManager).recover -> r
 //@ props C14 C03 C02
 //@ thin ^assert|^post|^loop
 //@ assigns writeset
 //@ ensures r >= 0 && r >= TabFloor
 //@ before_call os.ReadDir#0: ghost TabFloor = 0
+// glue (C02: handles rebuilt by recovery, dataflow only): the footer is the last 40 bytes of the
+// file; the index block is read at the footer's index handle and the data region at the index's data
+// handle, each with exactly the recorded length, and those bytes are what is decoded; the filter is
+// built from the decoded entries; the handle installed at the back of the level parsed from the file
+// name carries the number parsed from the file name, that index and that filter.
+//@ after_call originium.parseFileName#0: ghost RcLevel = result0
+//@ after_call originium.parseFileName#0: ghost RcIdx = result1
+//@ before_call (*os.File).Seek#0: assert arg0 == fd && arg1 == 0 - 40 && arg2 == 2
+//@ before_call (*os.File).Read#0: assert arg0 == fd && arrid(arg1) == arrid(footerBytes) && offof(arg1) == 0 && len(arg1) == 40
+//@ before_call (*table.Footer).Decode#0: assert arg0 == &footer && arrid(arg1) == arrid(footerBytes) && offof(arg1) == 0 && len(arg1) == 40
+//@ before_call (*os.File).Seek#1: assert arg0 == fd && arg2 == 0 && (0 <= footer.IndexBlock.Offset && footer.IndexBlock.Offset < 9223372036854775808 ==> arg1 == footer.IndexBlock.Offset)
+//@ before_call (*os.File).Read#1: assert arg0 == fd && arrid(arg1) == arrid(indexBytes) && offof(arg1) == 0 && (0 <= footer.IndexBlock.Length && footer.IndexBlock.Length < 9223372036854775808 ==> len(arg1) == footer.IndexBlock.Length)
+//@ before_call (*table.Index).Decode#0: assert arg0 == &index && arrid(arg1) == arrid(indexBytes) && offof(arg1) == 0 && len(arg1) == len(indexBytes)
+//@ before_call (*os.File).Seek#2: assert arg0 == fd && arg2 == 0 && (0 <= index.DataBlock.Offset && index.DataBlock.Offset < 9223372036854775808 ==> arg1 == index.DataBlock.Offset)
+//@ before_call (*os.File).Read#2: assert arg0 == fd && arrid(arg1) == arrid(dataBlockBytes) && offof(arg1) == 0 && (0 <= index.DataBlock.Length && index.DataBlock.Length < 9223372036854775808 ==> len(arg1) == index.DataBlock.Length)
+//@ before_call (*table.Data).Decode#0: assert arg0 == &dataBlock && arrid(arg1) == arrid(dataBlockBytes) && offof(arg1) == 0 && len(arg1) == len(dataBlockBytes)
+//@ before_call filter.Build#0: assert arrid(arg0) == arrid(dataBlock.Entries) && offof(arg0) == offof(dataBlock.Entries) && len(arg0) == len(dataBlock.Entries)
+//@ after_call filter.Build#0: ghost RcBf = ref(result)
+//@ before_call (*list.List).PushBack#0: assert arg0 == lm.levels[RcLevel] && unbox(tableHandle, arg1).levelIdx == RcIdx && unbox(tableHandle, arg1).dataBlockIndex == index && ref(bf) == RcBf
 //@ before_call (*list.List).PushBack#0: assert all(j, 0, len(dataBlock.Entries), dataBlock.Entries[j].Version <= maxVersion)
 //@ before_call (*list.List).PushBack#0: assert maxVersion >= TabFloor
 //@ before_call (*list.List).PushBack#0: ghost TabFloor = maxVersion
